@@ -56,26 +56,28 @@ Print Assumptions C17_tokenizer_cits_sorted.
    extractor regexes on the text at hand, which the harness checks on every recorded call / token ---- *)
 From EV Require Import Model.SearchEngine Model.Extract Model.E2E Model.RefEngine Model.E2EClosed Proofs.ClosedProofs Proofs.ClosedCorollaries.
 
-From EV Require Import Proofs.SearchDischarge.
+From EV Require Import Proofs.ShortPage Proofs.SearchGuarded Proofs.ClosedFinal.
 
-(* premises left: see Props/C02.v (search_residual, short_page_ok) and defyear_ok, which the real
-   DEFENDANT_YEAR pattern can fail on texts like " (1999)" (empty defendant) *)
+(* THE CLOSED THEOREM: premises are conditions on the text only (see Props/C02.v for their meaning); the guarded
+   DEFENDANT_YEAR contract is proved for the engine (C17_engine_defyear_guarded) *)
 Theorem C17_closed_metadata : forall this_year s l,
-  s <> s_eyecite -> short_page_ok s ->
-  search_residual (engine_search UM meta_table) -> defyear_ok (engine_search UM meta_table) ->
+  s <> s_eyecite -> ws_clean is_space_gen s -> odd_short_rows_silent s ->
   get_citations_closed this_year s false = Ok l ->
   Forall (meta_ok s l) l.
-Proof. exact closed_metadata''. Qed.
+Proof. exact closed_metadata_final. Qed.
 Print Assumptions C17_closed_metadata.
 
 Theorem C17_closed_metadata_any_option : forall this_year s ra l,
-  s <> s_eyecite -> short_page_ok s ->
-  search_residual (engine_search UM meta_table) -> defyear_ok (engine_search UM meta_table) ->
+  s <> s_eyecite -> ws_clean is_space_gen s -> odd_short_rows_silent s ->
   get_citations_closed this_year s ra = Ok l ->
   exists l0, get_citations_closed this_year s false = Ok l0 /\
              (forall c, In c l -> In c l0) /\ Forall (meta_ok s l0) l.
-Proof. exact closed_metadata_ra''. Qed.
+Proof. exact closed_metadata_ra_final. Qed.
 Print Assumptions C17_closed_metadata_any_option.
+
+Theorem C17_engine_defyear_guarded : defyear_ok_g is_space_gen (engine_search UM meta_table).
+Proof. exact E_defyear_ok_g. Qed.
+Print Assumptions C17_engine_defyear_guarded.
 
 (* every special token of the computed stream is non-empty (group 1 of every live extractor pattern has
    a positive minimum length: kernel-run analysis + "a capture is a match of its group's body") *)
